@@ -16,6 +16,7 @@
 #include <sstream>
 #include <string>
 #include <vector>
+#include "verif_guard.h"
 
 #ifndef VERIF_NO_NAUNET
 #include "naunet.h"
@@ -44,7 +45,12 @@ int verif_EvalRates(realtype *k, realtype *y, NaunetData *d) {
     seam_calls++;
     int r = 0;
     if (g_mode == MODE_PASS) {
-        r = EvalRates(k, y, d);
+        // the real EvalRates writes into a buffer whose tail is poisoned; the caller's (stack) array gets a copy
+        double *gk = verif_guarded_alloc(NREACTIONS);
+        for (int i = 0; i < NREACTIONS; i++) gk[i] = k[i];
+        r = EvalRates(gk, y, d);
+        for (int i = 0; i < NREACTIONS; i++) k[i] = gk[i];
+        verif_guarded_free(gk, NREACTIONS);
         seen_k.assign(k, k + NREACTIONS);
     } else {
         for (int i = 0; i < NREACTIONS; i++) k[i] = use_k[i];
@@ -177,7 +183,7 @@ int main() {
             printf("{\"ev\":\"use_scalars\"}\n");
         } else if (cmd == "rates" || cmd == "rates_nan") {
             // the real EvalRates on an exactly sized heap buffer
-            double *k = (double *)malloc(sizeof(double) * NREACTIONS);
+            double *k = verif_guarded_alloc(NREACTIONS);
             double *y = (double *)malloc(sizeof(double) * NEQUATIONS);
             for (int i = 0; i < NREACTIONS; i++) k[i] = (cmd == "rates") ? 0.0 : sentinel();
             for (int i = 0; i < NEQUATIONS; i++) y[i] = g_y[i];
@@ -191,7 +197,7 @@ int main() {
             { double kc[NCOOLPROCS] = {0.0}; EvalCoolingRates(kc, y, &g_data); printf(","); parr("kc", kc, NCOOLPROCS); }
 #endif
             printf("}\n");
-            free(k); free(y);
+            verif_guarded_free(k, NREACTIONS); free(y);
         } else if (cmd == "fex") {
             double ydot[NEQUATIONS];
             long before = seam_calls;
